@@ -77,7 +77,8 @@ def run(ctx, chk):
             chk.violation("C13.R2", label, "unknown-macro-not-rejected", f"{label}: an unknown macro name is not rejected with a diagnostic", where)
         # R3
         errp = [q for q in parse_paths if any("matches Err" in c[0] for c in q.conds)]
-        if errp and all(any(e.kind == "error" and e.start == "start" for e in q.effects) for q in errp):
+        from rules_c16 import own_location
+        if errp and all(any(e.kind == "error" and own_location(getattr(e, "startv", None), e.start) and own_location(getattr(e, "endv", None), e.end) for e in q.effects) for q in errp):
             chk.ok("C13.R3", label, "Err(e) of the nested parse -> error!(start, end, ..)")
         elif errp:
             chk.violation("C13.R3", label, "expansion-error-not-at-use-site", f"{label}: an error inside the expansion is not re-raised with the position of the macro use", where)
